@@ -12,6 +12,7 @@ import FpgoVerif.Props.C10
 #print axioms FpgoVerif.C10.C10_prefix_in_place_compaction_refuted
 #print axioms FpgoVerif.C10.C10_prefix_not_once
 #print axioms FpgoVerif.C10.C10_witness_fixed
+#print axioms FpgoVerif.C10.C10_witness_nil
 #print axioms FpgoVerif.C10.C10_skel_doSubscribeSafe
 #print axioms FpgoVerif.C10.C10_skel_Publish
 #print axioms FpgoVerif.C10.C10_skel_Subscribe
